@@ -1,5 +1,6 @@
 import Fzf.Lemmas.Ansi
 import Fzf.Lemmas.AnsiScan
+import Fzf.Lemmas.AnsiSpans
 /-
 C11 — `--ansi` strips escape sequences only and colours the right characters.
 Property theorems only.
@@ -31,6 +32,15 @@ theorem C11_scan_in_range (s : Bytes) (frm b e : Nat) (h : nextEscape s frm = so
 theorem C11_strip_only_removes (s : Bytes) (st : Option State) (idBase : Nat) :
     (extractColor s st idBase).1.toList.Sublist s.toList :=
   extractColor_sublist s st idBase
+
+/-- **The colour spans are ordered and never overlap**: for arbitrary bytes (well-formed sequences or
+    not, valid UTF-8 or not) and any colour state carried over from the previous line, no span
+    `extractColor` returns is inverted (`begin ≤ end`) and every span ends where or before every
+    later one begins — so no character ever gets two colours. -/
+theorem C11_spans_ordered (s : Bytes) (st : Option State) (idBase : Nat) (offs : List Offset)
+    (h : (extractColor s st idBase).2.1 = some offs) :
+    (∀ o ∈ offs, o.b ≤ o.e) ∧ offs.Pairwise (fun a b => a.e ≤ b.b) :=
+  extractColor_spans s st idBase offs h
 
 /-- The abstract colouring assigns exactly one cell to every character of the text. -/
 theorem C11_paint_length (pen : Spec.Pen) (ops : List Spec.Op) :
